@@ -59,7 +59,7 @@ func TestVerifC15HashPrefix(tt *testing.T) {
 		"rapid: real hashprefix.Filter (adult_blocking / safe_browsing / newly_registered_domains; replacement IP or host; list of 1-4 domains incl. nested parents) consulted by the filter behind the real main middleware in the full stack; histories of 3-10 requests over listed domains, 1-3-label subdomains of them and unlisted look-alikes, repeating earlier (name, type) pairs; every entry goes through the real querylog.FileSystem; oracle on the JSON line: a filterable query whose name is (under) a listed domain is logged with f=6, l=the filter's ID and m = an entry of the list that matches the name; other queries with f=1 and no l/m; non-trivial = logged repeated query for a proper subdomain of a listed domain; distinct by (list, name, type, replacement kind, repetition)",
 		"hashprefix-exact-first", "hashprefix-exact-repeated", "hashprefix-subdomain-first", "hashprefix-subdomain-repeated",
 		"hashprefix-nested-parents-repeated", "hashprefix-not-listed", "hashprefix-unfilterable-qtype", "hashprefix-repl-ip", "hashprefix-repl-host",
-		"hashprefix-https", "hashprefix-subdomain-3-labels-repeated")
+		"hashprefix-https", "hashprefix-subdomain-3-labels-repeated", "logged-name-of-mixed-case-question")
 	st.Finish(tt)
 
 	opts := vfsOpts{}
@@ -239,8 +239,12 @@ func TestVerifC15HashPrefix(tt *testing.T) {
 					fail("line %q is not a documented entry: %v", line, err)
 				}
 
-				if !strings.EqualFold(*l.N, r.Name) || *l.Q != r.QType {
-					fail("line %d %q is not about the request", li, line)
+				if *l.N != r.Name || *l.Q != r.QType {
+					fail("line %d %q does not name the request's question %q type %d as sent", li, line, r.Name, r.QType)
+				}
+
+				if r.Name != strings.ToLower(r.Name) {
+					classes = append(classes, "logged-name-of-mixed-case-question")
 				}
 
 				switch {
